@@ -42,23 +42,33 @@ impl Env {
             Op::Wait => self.h.wait(),
             Op::MaxCost { m } => {
                 self.h.update_max_cost(m);
-                Res::Unit
+                Res::Int(self.h.max_cost())
             }
             Op::Close => self.h.close(),
             Op::Adv { ms } => {
                 rt::advance(Duration::from_millis(ms));
                 Res::Unit
             }
+            Op::AdvNs { ns } => {
+                rt::advance(Duration::from_nanos(ns));
+                Res::Unit
+            }
             Op::Settle => {
                 rt::settle();
                 Res::Unit
             }
+            Op::Snap => {
+                let s = self.h.snap(&self.sh.clock, false);
+                self.snaps.lock().unwrap().push(s);
+                Res::Unit
+            }
+            Op::DropHandle => Res::Unit,
         };
         let ret = tick(&self.sh.clock);
         self.recs.lock().unwrap().push(Rec { th, idx, op, call, ret, call_ns, res, wrote });
         if op == Op::Settle && self.single {
             self.quiescent_at.lock().unwrap().push(ret);
-            let s = self.h.snap(&self.sh.clock);
+            let s = self.h.snap(&self.sh.clock, true);
             self.snaps.lock().unwrap().push(s);
         }
     }
@@ -124,11 +134,48 @@ pub fn run_program(p: &Program) -> Result<Trace, String> {
     for hd in handles {
         hd.join().unwrap();
     }
+    for (i, op) in p.post.iter().enumerate() {
+        env.exec(0, 500 + i, *op);
+    }
+    let drop_mode = p.threads.iter().flatten().chain(p.post.iter()).any(|o| *o == Op::DropHandle);
+    if drop_mode {
+        // every handle goes away without close(): afterwards only the worker count is observable
+        let Env { h, sh, recs, snaps, quiescent_at, .. } = match Arc::try_unwrap(env) {
+            Ok(e) => e,
+            Err(_) => panic!("harness: cache handle still shared at drop"),
+        };
+        drop(h);
+        rt::settle();
+        let at = tick(&sh.clock);
+        quiescent_at.lock().unwrap().push(at);
+        snaps.lock().unwrap().push(Snap {
+            at,
+            quiescent: true,
+            now_ns: rt::now_ns(),
+            entries: vec![],
+            policy: Default::default(),
+            buckets: vec![],
+            len: 0,
+            metrics: None,
+            workers: rt::thread::workers(),
+        });
+        rt::world::finish_mode();
+        let t = Trace {
+            recs: recs.lock().unwrap().clone(),
+            ledger: sh.ledger.log.lock().unwrap().clone(),
+            policy_events: sh.policy_events.lock().unwrap().clone(),
+            snaps: snaps.lock().unwrap().clone(),
+            validator_calls: sh.validator_calls.lock().unwrap().clone(),
+            evict_rounds: stretto::verif::take_evict_rounds(),
+            quiescent_at: quiescent_at.lock().unwrap().clone(),
+        };
+        return Ok(t);
+    }
     // final quiescent point
     rt::settle();
     let at = tick(&env.sh.clock);
     env.quiescent_at.lock().unwrap().push(at);
-    let fin = env.h.snap(&env.sh.clock);
+    let fin = env.h.snap(&env.sh.clock, true);
     env.snaps.lock().unwrap().push(fin);
     rt::world::finish_mode();
     let t = Trace {
